@@ -443,7 +443,8 @@ func runC18(r *Run) {
 				r.Check(fresh && dep, "R5", fnID(fn)+"#tuple-keys-fresh", P.Pos(instrPos(in)), "per-tuple make([]…, len(tuple.StorageKeys))",
 					"a tuple's StorageKeys is not a slice freshly allocated for that tuple (sized by that tuple's keys): tuples can share a backing array, so unwrapping the message yields a different access list — and a different hash and sender — than the one that was signed")
 			case "Address":
-				r.Check(backSlice(st.Val).HasField("AccessTuple", "Address"), "R5", fnID(fn)+"#tuple-address", P.Pos(instrPos(in)), "Address from the source tuple's Address", "a tuple's Address does not derive from the source tuple's Address")
+				as := backSlice(st.Val)
+				r.Check(as.HasField("AccessTuple", "Address") && indexedByLoopOnly(as), "R5", fnID(fn)+"#tuple-address", P.Pos(instrPos(in)), "Address from the current source tuple's Address", "a tuple's Address does not derive from the Address of the source tuple of the same iteration (e.g. a fixed element such as al[0])")
 			}
 		})
 		r.Floor("R5", "StorageKeys stores in "+id, nSt, 1)
@@ -455,7 +456,7 @@ func runC18(r *Run) {
 				return
 			}
 			if ia, ok := st.Addr.(*ssa.IndexAddr); ok {
-				if _, isMk := ia.X.(*ssa.MakeSlice); isMk && backSlice(st.Val).HasField("AccessTuple", "StorageKeys") {
+				if _, isMk := ia.X.(*ssa.MakeSlice); isMk && backSlice(st.Val).HasField("AccessTuple", "StorageKeys") && indexedByLoopOnly(backSlice(st.Val)) {
 					okElem = true
 				}
 			}
@@ -655,4 +656,27 @@ func isLoopHeader(b *ssa.BasicBlock) bool {
 		}
 	}
 	return false
+}
+
+// indexedByLoopOnly: every element selection in the slice uses a loop-carried index (no constant index such
+// as x[0]) and there is at least one — the value belongs to the current iteration's element.
+func indexedByLoopOnly(s *Slice) bool {
+	n, constIdx := 0, false
+	s.Any(func(v ssa.Value) bool {
+		var idx ssa.Value
+		switch x := v.(type) {
+		case *ssa.IndexAddr:
+			idx = x.Index
+		case *ssa.Index:
+			idx = x.Index
+		default:
+			return false
+		}
+		n++
+		if _, ok := idx.(*ssa.Const); ok {
+			constIdx = true
+		}
+		return false
+	})
+	return n > 0 && !constIdx
 }
